@@ -4,6 +4,16 @@ NOTES = ("Technique: machine-checked proof in Lean 4 about a hand-written execut
          "correspondence run on every check (DESIGN.md). fix: commits in /repo are listed in known_findings.json.")
 NOT_APPLICABLE = {}
 CHECKS = {
+    "C20": {
+        "text": ("Lean theorems (unbounded): the varint codec round-trips every 64-bit value (varint_roundtrip); any sequence of messages framed with a 4-byte "
+                 "big-endian length is read back identical and in order, independent of fragmentation (frames_roundtrip). The generated UnmarshalVT of Stat and "
+                 "Packet (varint loops with overflow/EOF exits, wire-type checks, map entries, Skip, unknown fields) is transcribed in Lean with every read "
+                 "bounds-checked (outcome panic) and run against the Go decoder on mutated encodings and raw bytes (value-or-error equality); values go through "
+                 "both codecs in both directions; packets go through util.ProtoStream with fragmenting readers, aliasing and allocation monitors."),
+        "note": ("Trusted: Lean kernel + standard axioms. The full stat_roundtrip theorem over the transcribed decoder is not proved yet (round trip is checked "
+                 "by execution on generated values); 'never aliases' and 'never over-allocates' are runtime facts observed by the harness monitors. Known "
+                 "finding F17 (non-UTF-8 names vs the generic runtime) is listed in known_findings.json."),
+    },
     "C19": {
         "text": ("Lean theorems (unbounded): the chunked listing buffer flattens to the concatenation of its frames for every chunk capacity and frame size "
                  "(buffer_flatten); with the repaired counter every registered id is the entry's position in the full STAT sequence for every stream "
